@@ -303,9 +303,10 @@ func parseNumber[D []byte | string](d D, neg, sepallowed bool) (Decimal, error) 
 			sawdig = true
 
 			if sawexp {
-				// Saturate instead of overflowing; any exponent this large is
-				// out of range whatever the significand is.
-				if exp < 1_000_000_000 {
+				// Saturate instead of overflowing. The bound is far above the
+				// number of digits any input can have, so an exponent this
+				// large is out of range whatever the significand is.
+				if exp < 1<<58 {
 					exp *= 10
 					exp += int(c - '0')
 				}
